@@ -1537,7 +1537,7 @@ def multi_evidence(rng):
     branches = []
     kinds = ["dynarray", "mapping", "bool-write", "address-write", "masked-write", "packed-write", "signed-use",
              "numeric-use", "copy-from", "plain-read", "bytes32-compare", "unsigned-use", "address-use", "selector-use",
-             "struct-init", "struct-init", "cmp-result", "cmp-result"]
+             "struct-init", "struct-init", "cmp-result", "cmp-result", "map-and-array", "map-and-array"]
     wordish = ["bool-write", "address-write", "masked-write", "signed-use", "numeric-use", "unsigned-use", "address-use",
                "plain-read", "bytes32-compare", "selector-use"]
     for s in slots:
@@ -1607,6 +1607,18 @@ def multi_evidence(rng):
             a.emit(sp, "SLOAD", 0, "MSTORE")
         elif k == "bytes32-compare":
             a.emit(sp, "SLOAD", ("push", rng.getrandbits(256), 32), "EQ", 0, "MSTORE")
+        elif k == "map-and-array":
+            # the same slot as the base of a mapping and of a dynamic array (contradictory container evidence)
+            first = rng.random() < 0.5
+            for which in ((0, 1) if first else (1, 0)):
+                if which == 0:
+                    a.emit(rng.choice(["CALLER", [4, "CALLDATALOAD"]]), 0, "MSTORE", sp, 0x20, "MSTORE", 0x40, 0, "SHA3")
+                else:
+                    a.emit(sp, 0, "MSTORE", 0x20, 0, "SHA3", 36, "CALLDATALOAD", "ADD")
+                if rng.random() < 0.5:
+                    a.emit("SLOAD", 0, "MSTORE")
+                else:
+                    a.emit("CALLVALUE", "SWAP1", "SSTORE")
         elif k == "cmp-result":
             # the raw result of a comparison / boolean operator is stored, and its negation (or a comparison of it)
             # is stored or used too: one value, seen by the boolean-operator rule from both sides
